@@ -166,6 +166,22 @@ class SymEnv(BaseEnv):
             return symnumpy.ndarray(a, DT[dtype])
         return st.Tensor(a, DT[dtype])
 
+    # -- shape level
+    def dim(self, name, lo=1, hi=4):
+        v = apoly.new_dim(name, lo, hi)
+        self.inputs[name] = {'kind': 'dim', 'syms': v}
+        apoly.register_side(v.symbols())
+        return v
+
+    def stensor(self, name, shape, dtype='float64'):
+        from . import shapetorch
+        return shapetorch.Tensor(list(shape), DT[dtype])
+
+    def internal(self, e):
+        """is this exception the checker's own (unsupported / abort) rather than the library's?"""
+        from .explorer import Unsupported
+        return isinstance(e, Unsupported)
+
     def pos_scalar(self, name, lo=None, hi=None):
         v = apoly.new_pos(name)
         self.inputs[name] = {'kind': 'scalar', 'skind': 'float', 'syms': v}
@@ -230,7 +246,7 @@ class SymEnv(BaseEnv):
             if isinstance(s, (int, float, Fraction)):
                 f = Fraction(s)
             elif isinstance(s, apoly.P):
-                f = apoly.model_value(s, model)
+                f = apoly.model_value(s, model) if not s.is_int_poly() else _frac(model.eval(s.to_z3(), model_completion=True))
             else:
                 t = s.t
                 f = _frac(model.eval(t, model_completion=True))
@@ -426,6 +442,17 @@ class ExactEnv(BaseEnv):
         if hi is not None:
             f = f * Fraction(hi) / 4
         return apoly.P.const(f)
+
+    def dim(self, name, lo=1, hi=4):
+        return seeded_int(self.seed, name, 0, lo, hi)
+
+    def stensor(self, name, shape, dtype='float64'):
+        from . import shapetorch
+        return shapetorch.Tensor(list(shape), DT[dtype])
+
+    def internal(self, e):
+        from .explorer import Unsupported
+        return isinstance(e, Unsupported)
 
     @staticmethod
     def _fl(v):
